@@ -1776,11 +1776,22 @@ impl PhysicalPlanner {
                             batches.clone(),
                             None,
                         );
-                        return Ok(Arc::new(exec));
+                        return Ok(crate::physical::operators::AliasExec::wrap(
+                            Arc::new(exec),
+                            &node.schema,
+                            &node.alias,
+                        ));
                     }
                 }
-                // Not cached, pass through to input
-                self.create_physical_plan_inner(&node.input)
+                // Not cached: plan the input, and expose its columns under the
+                // alias so `alias.col` cannot resolve to a same-named column of
+                // another join input (see AliasExec).
+                let input = self.create_physical_plan_inner(&node.input)?;
+                Ok(crate::physical::operators::AliasExec::wrap(
+                    input,
+                    &node.schema,
+                    &node.alias,
+                ))
             }
 
             LogicalPlan::EmptyRelation(node) => {
